@@ -218,8 +218,8 @@ func TestMetrics(t *testing.T) {
 				if len(c.sess) >= 3 {
 					t.Skip("enough sessions")
 				}
-				kind := rapid.SampledFrom([]string{"ok", "ok-discovery", "wrong-password", "status-error"}).Draw(t, "kind")
-				if c.udp && kind == "ok-discovery" {
+				kind := rapid.SampledFrom([]string{"ok", "ok-discovery", "wrong-password", "status-error", "no-supported-suite", "bad-icv"}).Draw(t, "kind")
+				if c.udp && (kind == "ok-discovery" || kind == "no-supported-suite") {
 					kind = "ok"
 				}
 				opts := creds.Opts()
@@ -234,6 +234,14 @@ func TestMetrics(t *testing.T) {
 				switch kind {
 				case "ok-discovery":
 					opts.CipherSuites = nil
+				case "no-supported-suite":
+					// two acceptable suites, neither advertised: discovery, then the
+					// no-supported-cipher-suite error
+					opts.CipherSuites = []ipmi.CipherSuite{hx.LibSuite(ref.Suite{Auth: 2, Integ: 2, Conf: 1}), hx.LibSuite(ref.Suite{Auth: 1, Integ: 4, Conf: 1})}
+				case "bad-icv":
+					// the BMC holds a key-generating key the console does not know: RAKP2
+					// verifies (it depends on the password only), the RAKP4 ICV does not
+					c.b.KG = []byte("a BMC key the console lacks")[:20]
 				case "wrong-password":
 					opts.Password = []byte("not the password")
 				case "status-error":
@@ -248,9 +256,10 @@ func TestMetrics(t *testing.T) {
 				cancel()
 				lock()
 				c.b.OpenOverride = nil
+				c.b.KG = nil
 				unlock()
 				m.add("bmc_session_open_attempts_total", "", 1)
-				if kind == "ok-discovery" {
+				if kind == "ok-discovery" || kind == "no-supported-suite" {
 					// two 5-byte records fit one chunk: one Get Channel Cipher Suites command
 					m.add("bmc_command_attempts_total", "command=Get Channel Cipher Suites", 1)
 					m.add("bmc_command_responses_total", codeLabel(0), 1)
